@@ -137,8 +137,17 @@ fn c18_k<K: Kind>(case: &PlanCase, trace: &Trace, ctx: &mut Ctx) {
                         let a = built;
                         for b in 0..a {
                             let d = ks.d(&rm[a].0, &rm[b].0);
+                            let d_rev = ks.d(&rm[b].0, &rm[a].0);
                             let linked = rm[a].1.contains(&b);
-                            if d < radius {
+                            // "closer than the radius" is decided exactly; where the two argument
+                            // orders of the metric disagree about it (a last-bit tie that the
+                            // statement does not resolve) the case is not judged
+                            if (d < radius) != (d_rev < radius) {
+                                ctx.discard("radius tie between the two argument orders of the metric");
+                                break 'replay;
+                            }
+                            let within = d < radius;
+                            if within {
                                 let Some((ok, np)) = next_motion(vlog, ids, pos) else {
                                     ctx.fail("C18:pair-within-radius-not-motion-checked", format!("milestones {b} and {a} are {d:e} apart (< radius {radius:e}) but the log holds no motion check between them"));
                                     break 'replay;
@@ -212,6 +221,10 @@ fn c18_k<K: Kind>(case: &PlanCase, trace: &Trace, ctx: &mut Ctx) {
                 let mut pos = 1.min(vlog.len()); // is_valid(start)
                 let mut s_set = Vec::new();
                 for (k, (ms, _)) in rm.iter().enumerate() {
+                    if (ks.d(&prob.start, ms) < radius) != (ks.d(ms, &prob.start) < radius) {
+                        ctx.discard("radius tie between the two argument orders of the metric");
+                        return;
+                    }
                     if ks.d(&prob.start, ms) < radius {
                         match next_motion(vlog, ids, pos) {
                             Some((ok, p)) => {
